@@ -72,7 +72,7 @@ var (
 	SimpleAgg = []string{"sum", "min", "max", "avg", "count", "group", "stddev", "stdvar"}
 	BinOps    = []string{"+", "-", "*", "/", "%", "^", "==", "!=", ">", "<", ">=", "<=", "atan2"}
 	CmpOps    = map[string]bool{"==": true, "!=": true, ">": true, "<": true, ">=": true, "<=": true}
-	Matchings = []string{"", "on ()", "on (l)", "ignoring (m)", "on (l) group_left", "on (l) group_left (m)", "on (l) group_right", "ignoring (m) group_left"}
+	Matchings = []string{"", "on ()", "on (l)", "ignoring (m)", "on (l) group_left", "on (l) group_left (m)", "on (l) group_right", "ignoring (m) group_left", "on (__name__, l)"}
 	Ranges    = []string{"15s", "30s", "45s", "1m", "90s"}
 )
 
